@@ -26,7 +26,7 @@ theorem dv_requestTerminate (s : EState) (k r : String) : dv (requestTerminate s
   split
   · rfl
   · split
-    · rw [dv_refuse, dv_termPrep]
+    · rw [dv_refuse]
     · rename_i s' hs
       rw [dv_termAfter, dv_setState hs, dv_termPrep]
 
